@@ -20,7 +20,7 @@ MODES = {
     'C04': ['bnd_c04'],
     'C05': ['bnd_tables'],
     'C06': ['bnd_tables', 'c06_positions'],
-    'C07': ['bnd_c07', 'c07_ol', 'c07_compose', 'c16_compose'],
+    'C07': ['bnd_c07', 'c07_ol', 'c07_compose', 'c16_compose', 'c16_roman'],
     'C08': ['bnd_c08', 'c08_elements'],
     'C09': ['bnd_c09', 'c16_affix', 'bnd_c12'],
     'C11': ['bnd_doc', 'bnd_tables', 'bnd_mut', 'c02_elements'],
@@ -28,13 +28,14 @@ MODES = {
     'C13': ['bnd_c13', 'c13_minwrap'],
     'C14': ['bnd_c14', 'c14_hardwrap', 'c14_elements'],
     'C15': ['bnd_c15'],
-    'C16': ['bnd_doc', 'c16_prefix', 'c16_affix', 'c16_trivial', 'c07_compose', 'c16_compose'],
+    'C16': ['bnd_doc', 'c16_prefix', 'c16_affix', 'c16_trivial', 'c07_compose', 'c16_compose', 'c16_roman'],
     'C18': ['bnd_c18'],
     'C19': ['c19', 'c19_inherit', 'c19_block', 'c19_order'],
     'C20': ['bnd_c20', 'c20_nth'],
 }
 # enumerations written earlier as replay searchers (they stop at the first hit and print `NONE <cases>` otherwise); bound stated here
 LEGACY_BOUND = {
+    'c16_roman': 'a decorator numbering ordered lists in roman numerals (the widest marker is neither the first nor the last): 5 lists (start 1, 6, 17, 38; 2..9 items) at widths 8..=24: lines within the width, the texts of all items start in one column',
     'c16_compose': '50 (thorough: 200) seeded blocks inside a quote and a list item, 3 decorators with non-ASCII / wide / multi-character prefixes, widths 10..=40 step 3: when both render, the block is its content rendered at width - display width of the prefix with the prefix (then blank indentation of that width for items) in front of every line',
     'c07_ol': '<ol start=s> with s in {i64::MAX, MAX-1, i64::MIN, 0, -1, 98}, 1..3 items, widths 6 and 30: no panic',
     'c01_colspan': 'tables with colspan in {0, 1, 2, 3, usize::MAX, 2^32} in 2 rows x 2 cells, widths 1, 5, 20: no panic',
@@ -52,6 +53,7 @@ LEGACY_BOUND = {
     'c14_hardwrap': '3 documents x widths 3..=8: an id whose first word is hard-wrapped still yields exactly one fragment marker',
 }
 STANDS_FOR = {
+    'c16_roman': 'calc_ol_prefix_size and the Ol arm of do_render_node with a decorator whose marker widths are not monotone',
     'c12_contflag': 'add_text / flush_word: when the preformatted-continuation tag is chosen (the two smallest documents showing finding D24)',
     'c02_elements': 'the width bound and the overflow option over the element catalogue (elements the seeded grammars do not produce)',
     'c08_elements': 'process_dom_node (<a> arm: href / name / content-less links), start_link / end_link through every container kind',
